@@ -561,10 +561,24 @@ def removeSub (pat : Str) : Nat → Str → Str
     if !pat.isEmpty && pat.isPrefixOf (c :: rest) then removeSub pat fuel ((c :: rest).drop pat.length)
     else c :: removeSub pat fuel rest
 
+/-- drop the `<w:sectPr>…</w:sectPr>` elements (section breaks) of a piece of XML (`fuel` bounds the scan) -/
+def dropSect : Nat → Str → Str
+  | 0, s => s
+  | _, [] => []
+  | fuel + 1, c :: rest =>
+    let s := c :: rest
+    if "<w:sectPr/>".toList.isPrefixOf s then dropSect fuel (s.drop 11)
+    else if "<w:sectPr>".toList.isPrefixOf s || "<w:sectPr ".toList.isPrefixOf s then
+      match afterSub "</w:sectPr>".toList s with
+      | some r => dropSect fuel r
+      | none => c :: dropSect fuel rest
+    else c :: dropSect fuel rest
+
 /-- `_copy_paragraph_properties`: a new paragraph modelled on an existing one does not take over the tracked
-change of that paragraph's mark (its id would be duplicated) -/
+change of that paragraph's mark (its id would be duplicated) nor its section break (it would start a new
+section with every new paragraph) -/
 def copyPPr (ppr : Str) : Str :=
-  removeSub "<w:rPr></w:rPr>".toList ppr.length (dropMarks ppr.length ppr)
+  dropSect ppr.length (removeSub "<w:rPr></w:rPr>".toList ppr.length (dropMarks ppr.length ppr))
 
 /-- paragraphs created for the lines of a multi-line insertion (style of each line, runs, one id each) -/
 def lineParas (s : Sess) (lines : List Str) (style : Option Run) (suppress : Bool) (ppr : Para) :
